@@ -4,6 +4,7 @@ import (
 	"encoding/json"
 	"fmt"
 	"reflect"
+	"regexp"
 	"sort"
 	"strings"
 
@@ -571,7 +572,7 @@ func oracleRanges(c *caseCtx, q core.Query, r core.Result) {
 		if c.parserBad(p, rng.Filename)[rng] {
 			origin = "parser-node-range"
 		}
-		sig := fmt.Sprintf("RANGE %s %s %s %s", q.Kind, fpath, class, origin)
+		sig := fmt.Sprintf("RANGE %s %s %s %s", q.Kind, normPath(fpath), class, origin)
 		c.Rep.Violation(c.witness(sig, fmt.Sprintf("%s result field %s holds range %s: %s", q.Kind, fpath, fmtRange(rng), prob), q, func(w *runner.Witness) {
 			w.Observed = fmtRange(rng)
 			w.Expected = "a range of a file of this path with 0 <= start <= end <= len and line/column matching the byte offsets"
@@ -585,6 +586,18 @@ func oracleRanges(c *caseCtx, q core.Query, r core.Result) {
 			c.Rep.Sample(map[string]interface{}{"source": c.Spec.Recipe.String(), "query": q.String(), "mutation": c.Spec.Mut.String(), "ranges_in_result": nRanges, "text_class": textClass})
 		}
 	}
+}
+
+var nestedRe = regexp.MustCompile(`(\.nestedSymbols\[\])+|(\.NestedTargets\[\])+`)
+
+// normPath collapses repeated nesting so that signatures do not depend on depth.
+func normPath(p string) string {
+	return nestedRe.ReplaceAllStringFunc(p, func(m string) string {
+		if strings.HasPrefix(m, ".nestedSymbols") {
+			return ".nestedSymbols[]*"
+		}
+		return ".NestedTargets[]*"
+	})
 }
 
 func problemClass(p string) string {
@@ -620,12 +633,45 @@ func init() {
 			FatalIsViolation: true,
 		},
 		oracles:      []Oracle{oracleCrash, oracleCoverageC01},
-		chunks:       map[string]int{"quick": 4, "thorough": 16},
-		nGenQuick:    40,
+		chunks:       map[string]int{"quick": 8, "thorough": 16},
+		nGenQuick:    24,
 		nGenThorough: 600,
 		rawPos:       true,
-		prefixStep:   map[string]int{"quick": 5, "thorough": 1},
-		tokStep:      map[string]int{"quick": 6, "thorough": 1},
+		prefixStep:   map[string]int{"quick": 9, "thorough": 1},
+		tokStep:      map[string]int{"quick": 11, "thorough": 1},
+	})
+	Register(&StreamProp{
+		id:           "C06",
+		meta:         Meta{Level: "exploration", Rule: "TODO", Floor: map[string]int{"quick": 50, "thorough": 100}, CaseBudget: 60},
+		oracles:      []Oracle{oracleCandidates},
+		kinds:        []core.QKind{core.QCompletion, core.QCompletionPrefill},
+		chunks:       map[string]int{"quick": 8, "thorough": 16},
+		nGenQuick:    24,
+		nGenThorough: 400,
+		prefixStep:   map[string]int{"quick": 7, "thorough": 1},
+		tokStep:      map[string]int{"quick": 9, "thorough": 2},
+	})
+	Register(&StreamProp{
+		id:           "C12",
+		meta:         Meta{Level: "exploration", Rule: "TODO", Floor: map[string]int{"quick": 50, "thorough": 100}, CaseBudget: 60},
+		oracles:      []Oracle{oracleHover},
+		kinds:        []core.QKind{core.QHover},
+		chunks:       map[string]int{"quick": 8, "thorough": 16},
+		nGenQuick:    24,
+		nGenThorough: 400,
+		prefixStep:   map[string]int{"quick": 7, "thorough": 1},
+		tokStep:      map[string]int{"quick": 9, "thorough": 2},
+	})
+	Register(&StreamProp{
+		id:           "C13",
+		meta:         Meta{Level: "exploration", Rule: "TODO", Floor: map[string]int{"quick": 50, "thorough": 100}, CaseBudget: 60},
+		oracles:      []Oracle{oracleTokens},
+		kinds:        []core.QKind{core.QSemTokens},
+		chunks:       map[string]int{"quick": 8, "thorough": 16},
+		nGenQuick:    24,
+		nGenThorough: 400,
+		prefixStep:   map[string]int{"quick": 3, "thorough": 1},
+		tokStep:      map[string]int{"quick": 3, "thorough": 1},
 	})
 	Register(&StreamProp{
 		id: "C02",
@@ -637,10 +683,10 @@ func init() {
 			CaseBudget:  60,
 		},
 		oracles:      []Oracle{oracleRanges},
-		chunks:       map[string]int{"quick": 4, "thorough": 16},
-		nGenQuick:    24,
+		chunks:       map[string]int{"quick": 8, "thorough": 16},
+		nGenQuick:    16,
 		nGenThorough: 400,
-		prefixStep:   map[string]int{"quick": 5, "thorough": 1},
-		tokStep:      map[string]int{"quick": 6, "thorough": 2},
+		prefixStep:   map[string]int{"quick": 9, "thorough": 1},
+		tokStep:      map[string]int{"quick": 11, "thorough": 2},
 	})
 }
